@@ -141,6 +141,10 @@ func main() {
 	for w := 0; w < *workers; w++ {
 		z := interp.NewSolver(strings.Fields(*solverBin)...)
 		solvers = append(solvers, z)
+		if d := os.Getenv("SYMGO_LOG"); d != "" {
+			f, _ := os.Create(fmt.Sprintf("%s/solver_%d.smt2", d, w))
+			z.Log = f
+		}
 		wg.Add(1)
 		go func(z *interp.Solver) {
 			defer wg.Done()
